@@ -73,6 +73,8 @@ def transport_slice(ctx):
     if not summ:
         raise vlib.Inconclusive("transport driver did not finish:\n" + out[-1500:])
     ctx.evaluations += len(cs)
+    if summ[0].get("env"):
+        raise vlib.Inconclusive("%d cases hit an environment failure (no local port / descriptor); nothing is concluded from them" % summ[0]["env"])
     ctx.traces += len(cs) - summ[0]["bad"]
     ctx.notes["transport_host_header_cases"] = len(cs)
     for x in res:
